@@ -157,7 +157,7 @@ CHECKS = {
         "eval_obs_is_ref_wf (the refinement for any closed class of wfTop queries with no text hypothesis left); the model is tied "
         "to the code by comparing full outcomes and call logs of generated queries (typed arguments, defaults, variadic, links to depth 3, namespaces, state "
         "variables, sub-evaluations, input values, extra parameters) with the evaluator model and with the Lean reference interpretation; the oracle is an "
-        "independent Python fold over the parsed query. An implementation-side oracle family evaluates queries with a command that returns its own State object (state variables, namespaces and flags set to its left must reach the steps to its right)."),
+        "independent Python fold over the parsed query. Known finding rtq-ambiguous-text (consequence of C02's rtq-capture, first seen in the thorough tier): a relative link re-parses the canonical text of its parent at top level. An implementation-side oracle family evaluates queries with a command that returns its own State object (state variables, namespaces and flags set to its left must reach the steps to its right)."),
   note='Trusted: Lean kernel; the hand-written evaluator model LiquerModel/Eval.lean + Vocab.lean + Value.lean and the reference interpretation Ref.lean (tied to Context.evaluate/evaluate_action/evaluate_parameter/apply, parse_argv and the argument parsers by differential correspondence over generated queries and histories, not proved about Python); command signatures regenerated from the live registry; vocabulary semantics written twice; the cache is the KV specification at evaluator states (back-ends tied to it by C13); oracle harness/oracle_ref.py.',
  ),
  "C04": dict(
